@@ -192,7 +192,7 @@ def _register_to():
             first = ctx.input("co_firstlineno", SymInt.fresh("first"))
             code = types.SimpleNamespace(co_posonlyargcount=p, co_argcount=a, co_kwonlyargcount=k, co_varnames=("v0", "v1"), co_flags="WORD",
                                          co_consts=consts, co_freevars=("x",) if free_case else (), co_cellvars=(), co_code=b"\x00\x00\x01\x00", co_names=("nm",),
-                                         co_firstlineno=first, co_stacksize=7, co_filename="file.py", co_name="name")
+                                         co_firstlineno=first, co_stacksize=7, co_filename="file.py", co_name="name" if not free_case else "<listcomp>")
             ns["sys"] = types.SimpleNamespace(version_info=cfg.vt)
 
             def bit(name):
@@ -231,7 +231,7 @@ def _register_to():
             ctx.prove("glue.args_input.posonlyargcount", Z(inp.posonlyargcount) == (p.z if cfg.vt >= (3, 8) else 0))
             ctx.prove("glue.args_input.varnames", z3.BoolVal(inp.varnames is code.co_varnames))
             ctx.prove("glue.first_line_number", Z(cap["first_line_number"]) == first.z)
-            ctx.prove("glue.header_fields_passed_through", z3.BoolVal(cap["stacksize"] == 7 and cap["filename"] == "file.py" and cap["name"] == "name" and cap["freevars"] is code.co_freevars
+            ctx.prove("glue.header_fields_passed_through", z3.BoolVal(cap["stacksize"] == 7 and cap["filename"] == "file.py" and cap["name"] == code.co_name and cap["freevars"] is code.co_freevars
                                                                        and cap["blocks"] == "BLOCKS" and cap["_additional_args"] == "ADDITIONAL-ARGS" and cap["_additional_line"] == "NEXT-LINE"))
             b2b = [e for e in log if e[0] == "bytes_to_blocks"][0][1]
             ctx.prove("glue.bytes_to_blocks_receives_the_tables_in_order",
